@@ -123,6 +123,50 @@ int_atomic!(AtomicU16, u16, false);
 int_atomic!(AtomicU32, u32, false);
 int_atomic!(AtomicU64, u64, false);
 int_atomic!(AtomicUsize, usize, false);
+int_atomic!(AtomicI8, i8, false);
+int_atomic!(AtomicI16, i16, false);
+int_atomic!(AtomicI32, i32, false);
+int_atomic!(AtomicI64, i64, false);
+int_atomic!(AtomicIsize, isize, false);
+
+/// `AtomicPtr` of the hooked build.
+#[derive(Debug)]
+pub struct AtomicPtr<T>(loom::sync::atomic::AtomicPtr<T>);
+impl<T> AtomicPtr<T> {
+    #[track_caller]
+    pub fn new(p: *mut T) -> Self {
+        Self(loom::sync::atomic::AtomicPtr::new(p))
+    }
+    fn touch(&self) {
+        crate::track::shim_access(self as *const Self as usize);
+        event(Ev::AtomicOther);
+    }
+    #[track_caller]
+    pub fn load(&self, o: Ordering) -> *mut T {
+        self.touch();
+        self.0.load(o)
+    }
+    #[track_caller]
+    pub fn store(&self, p: *mut T, o: Ordering) {
+        self.touch();
+        self.0.store(p, o)
+    }
+    #[track_caller]
+    pub fn swap(&self, p: *mut T, o: Ordering) -> *mut T {
+        self.touch();
+        self.0.swap(p, o)
+    }
+    #[track_caller]
+    pub fn compare_exchange(&self, c: *mut T, n: *mut T, s: Ordering, f: Ordering) -> Result<*mut T, *mut T> {
+        self.touch();
+        self.0.compare_exchange(c, n, s, f)
+    }
+    #[track_caller]
+    pub fn compare_exchange_weak(&self, c: *mut T, n: *mut T, s: Ordering, f: Ordering) -> Result<*mut T, *mut T> {
+        self.touch();
+        self.0.compare_exchange_weak(c, n, s, f)
+    }
+}
 
 /// Lazily created loom `AtomicBool` with a `const fn new` — in kanal this is
 /// the word of the spin lock.
